@@ -34,7 +34,7 @@ def dump_mir(kind):
     cmd = ['cargo', '+nightly', 'rustc', '--offline', '--lib', '--target-dir', tdir]
     if kind == 'nopar':
         cmd += ['--no-default-features']
-    cmd += ['--', '-Zunpretty=mir', '-C', 'debug-assertions=off']
+    cmd += ['--', '-Zunpretty=mir'] + ([] if kind == 'debug' else ['-C', 'debug-assertions=off'])
     t0 = time.time()
     with open(out, 'w') as f:
         p = subprocess.run(cmd, cwd=cwd, stdout=f, stderr=subprocess.PIPE, text=True, env=ENV)
@@ -84,7 +84,12 @@ class Ctx:
     def run(self, fn, loop_bound=3):
         k = (id(fn), loop_bound)
         if k not in self._runs:
-            self._runs[k] = M.Exec(fn, loop_bound=loop_bound, stats=self.stats).run()
+            try:
+                self._runs[k] = M.Exec(fn, loop_bound=loop_bound, stats=self.stats).run()
+            except M.Unsupported as e:
+                if 'step bound' not in str(e) or loop_bound <= 1:
+                    raise
+                self._runs[k] = M.Exec(fn, loop_bound=1, stats=self.stats).run()     # too many paths: unroll once only
             self.functions.append(fn.name)
         return self._runs[k]
 
@@ -373,9 +378,8 @@ def run_part(pid, part, tier, report, known):
     t0 = time.time()
     incon = []
     names = part.get('specs')
-    for title, fn in SPECS[pid]:
-        if names and fn.__name__ not in names:
-            continue
+    todo = [(n, globals()[n]) for n in names] if names else SPECS[pid]
+    for title, fn in todo:
         try:
             fn(ctx)
         except M.Unsupported as e:
@@ -433,10 +437,19 @@ def fidx(path, struct, field):
     if not m:
         raise M.Unsupported('struct %s not found in %s' % (struct, path))
     names = []
+    skip = False
     for ln in m.group(1).split('\n'):
+        t = ln.strip()
+        c = re.match(r'#\[cfg\((not\()?feature = "(\w+)"\)?\)\]', t)
+        if c:
+            on = c.group(2) in ('parallel', 'shred-derive')      # features of the default dump
+            skip = (not on) if not c.group(1) else on
+            continue
         mm = re.match(r'\s*(?:pub(?:\([^)]*\))?\s+)?(\w+)\s*:', ln)
-        if mm and not ln.strip().startswith(('//', '#')):
-            names.append(mm.group(1))
+        if mm and not t.startswith(('//', '#')):
+            if not skip:
+                names.append(mm.group(1))
+            skip = False
     # cfg-gated fields keep their position when the feature is on (default features in the dump)
     if field not in names:
         raise M.Unsupported('field %s not in struct %s' % (field, struct))
@@ -1009,3 +1022,728 @@ SPECS.update({
     'C13': [('setup/dispose fan-out forwarders', spec_forwarders), ('batch wrapper setup/dispose', spec_batch_setup_dispose)],
     'C18': [('DispatcherBuilder::add: the two rejections', spec_add), ('add_barrier / add_thread_local have no panic of their own', spec_add_barrier), ('add_thread_local', spec_add_thread_local)],
 })
+
+
+# ================================================================================================
+# C08 / C09: World
+
+WORLD = r'^src/world/mod.rs: impl World'
+CELL = r'atomic_refcell::AtomicRefCell::<Box<dyn Resource>>::'
+
+
+def closure_of(ctx, name_suffix, file_part):
+    l = [f for f in ctx.fns() if f.name.endswith(name_suffix) and file_part in f.name]
+    if len(l) != 1:
+        raise M.Unsupported('%d closures match %s' % (len(l), name_suffix))
+    return l[0]
+
+
+def spec_world_fetch(ctx):
+    i_res = fidx('src/world/mod.rs', 'World', 'resources')
+    for nm, excl in (('try_fetch', False), ('try_fetch_mut', True)):
+        key = 'world-' + nm
+        f = ctx.one(WORLD, nm)
+        outs = ctx.run(f)
+        tb = 'try_borrow_mut' if excl else 'try_borrow'
+        guard = 'AtomicRefMut' if excl else 'AtomicRef'
+        n_ret_none = n_ret_some = n_panic = 0
+        for o in outs:
+            cs = sig(o)
+            get = [e for e in cs if re.search(r'AHashMap::<.*>::get::<(world::)?ResourceId>$', e.callee)]
+            idc = [e for e in cs if re.search(r'ResourceId::new::<T>$', e.callee)]
+            ok = len(get) == 1 and len(idc) == 1 and ctx.valid('get self', get[0].args[0] == self_field(i_res))
+            keyv = None
+            if ok:
+                # the key handed to the map is the local that holds ResourceId::new::<T>()
+                m = re.match(r'^ref\(local_(_\d+)\)$', str(get[0].args[1]))
+                keyv = o.st.store.get(('L', m.group(1)), {}).get(()) if m else None
+                ok = keyv is not None and ctx.valid('key', to_term(keyv) == idc[0].result)
+            ctx.ob(key, '%s: looks the cell up in this world under ResourceId::new::<T>()' % nm, ok, str([e.callee[:50] for e in cs]))
+            borrows = [e for e in cs if re.search(CELL + r'(try_borrow|try_borrow_mut|borrow|borrow_mut)$', e.callee)]
+            right = [e for e in borrows if e.callee.endswith('::' + tb)]
+            br = [e for e in cs if re.search(r'as Try>::branch$', e.callee)]
+            if o.kind == 'return' and not borrows:
+                n_ret_none += 1
+                # None only when the lookup said "absent"
+                ok = len(br) == 1 and ctx.valid('br', br[0].args[0] == get[0].result) and any(str(w) == 'disc(%s)' % br[0].result and k == 1 for w, k in o.st.decisions) \
+                    and any(re.search(r'FromResidual<Option<Infallible>>>::from_residual$', e.callee) for e in cs)
+                ctx.ob(key, '%s: returns None only when the lookup found no such resource' % nm, ok, show(o)[:300])
+            elif o.kind == 'return':
+                n_ret_some += 1
+                ok = len(borrows) == 1 and len(right) == 1 and len(br) == 1 and ctx.valid('cell', right[0].args[0] == M.f_fld(M.mk_fn('as_Continue', 1)(br[0].result), 0))
+                ctx.ob(key, '%s: borrows exactly the looked-up cell, %s' % (nm, 'exclusively' if excl else 'shared'), ok, str([e.callee[:60] for e in borrows]))
+                mp = [e for e in cs if re.search(r'atomic_refcell::%s::<.*>::map::<dyn Resource' % guard, e.callee)]
+                okd = any(str(w) == 'disc(%s)' % right[0].result and k == 0 for w, k in o.st.decisions) if right else False
+                okv = False
+                if len(mp) == 1 and isinstance(o.value, Agg) and o.value.variant == 'Some' and isinstance(o.value.fields[0], Agg):
+                    okv = ctx.valid('guard', to_term(o.value.fields[0].fields[0]) == mp[0].result) and ctx.valid('guard src', mp[0].args[0] == M.f_fld(M.mk_fn('as_Ok', 1)(right[0].result), 0))
+                ctx.ob(key, '%s: a guard is returned only on the Ok arm of %s and it owns exactly that borrow' % (nm, tb), okd and okv, repr(o.value)[:200])
+            elif o.kind == 'diverge':
+                n_panic += 1
+                ok = len(right) == 1 and any(str(w) == 'disc(%s)' % right[0].result and k == 1 for w, k in o.st.decisions) and 'panic' in o.detail
+                ctx.ob(key, '%s: the only panic is the Err arm of %s (a conflicting borrow never yields a value)' % (nm, tb), ok, show(o)[:300])
+            else:
+                ctx.ob(key, '%s: no other outcome' % nm, False, o.kind)
+        ctx.ob(key, '%s: exactly three outcomes (absent -> None, conflict -> panic, free -> guard)' % nm, (n_ret_none, n_ret_some, n_panic) == (1, 1, 1), str((n_ret_none, n_ret_some, n_panic)))
+    # by-id forms
+    for nm, excl in (('try_fetch_by_id', False), ('try_fetch_mut_by_id', True)):
+        key = 'world-' + nm
+        o = straight(ctx, key, ctx.one(WORLD, nm), nm)
+        if not o:
+            continue
+        cs = match_calls(ctx, key, nm, o, [r'ResourceId::assert_same_type_id::<T>$', r'AHashMap::<.*>::get::<(world::)?ResourceId>$', r'^Option::<&atomic_refcell::AtomicRefCell<Box<dyn Resource>>>::map::<Fetch(Mut)?<\'_, T>, \{closure@src/world/mod.rs'])
+        if cs:
+            ok = ctx.valid('a', cs[0].args[0] == cs[1].args[1]) and ctx.valid('b', cs[1].args[0] == self_field(i_res)) and ctx.valid('c', cs[2].args[0] == cs[1].result) and ctx.valid('d', to_term(o.value) == cs[2].result)
+            ctx.ob(key, '%s: type check on the id, lookup under that same id, None exactly when absent (Option::map of the lookup)' % nm, ok)
+        cl = closure_of(ctx, '::%s::{closure#0}' % nm, 'world/mod.rs')
+        oc = straight(ctx, key, cl, nm + ' closure')
+        if oc:
+            bw = 'borrow_mut' if excl else 'borrow'
+            guard = 'AtomicRefMut' if excl else 'AtomicRef'
+            cc = match_calls(ctx, key, nm + ' closure', oc, [CELL + bw + '$', r'atomic_refcell::%s::<.*>::map::<dyn Resource' % guard])
+            if cc:
+                ok = ctx.valid('e', cc[0].args[0] == P(2)) and ctx.valid('f', cc[1].args[0] == cc[0].result) and isinstance(oc.value, Agg) and ctx.valid('g', to_term(oc.value.fields[0]) == cc[1].result)
+                ctx.ob(key, '%s: on a present resource the panicking %s() of that cell is taken and the guard owns it (conflict -> panic by atomic_refcell\'s contract)' % (nm, bw), ok, repr(oc.value))
+    # fetch / fetch_mut = try_ form + panic when absent
+    for nm in ('fetch', 'fetch_mut'):
+        key = 'world-' + nm
+        o = straight(ctx, key, ctx.one(WORLD, nm), nm)
+        if o:
+            cs = match_calls(ctx, key, nm, o, [r'World::try_%s::<T>$' % nm, r'^Option::<Fetch(Mut)?<\'_, T>>::unwrap_or_else::<\{closure@src/world/mod.rs'])
+            if cs:
+                ctx.ob(key, '%s = try_%s(self) or panic' % (nm, nm), ctx.valid('h', cs[0].args[0] == P(1)) and ctx.valid('i', cs[1].args[0] == cs[0].result) and ctx.valid('j', to_term(o.value) == cs[1].result))
+        cl = closure_of(ctx, '::%s::{closure#0}' % nm, 'world/mod.rs')
+        outs = ctx.run(cl)
+        ctx.ob(key, '%s: the absent case never returns' % nm, all(x.kind == 'diverge' for x in outs) and outs, str([x.kind for x in outs]))
+    # guard clone: a second shared borrow of the same cell
+    o = straight(ctx, 'world-guards', ctx.one(r"Clone for Fetch<'_, T>", 'clone'), 'Fetch::clone')
+    if o:
+        cs = match_calls(ctx, 'world-guards', 'Fetch::clone', o, [r'atomic_refcell::AtomicRef::<\'_, dyn Resource>::clone$'])
+        if cs:
+            ctx.ob('world-guards', 'Fetch::clone clones the guard (one more shared borrow of the same cell)', ctx.valid('k', cs[0].args[0] == M.f_ref(M.f_fld(M.f_deref(P(1)), 0))) and isinstance(o.value, Agg) and ctx.valid('l', to_term(o.value.fields[0]) == cs[0].result))
+    # no Drop impl on Fetch / FetchMut / Read / Write: dropping them drops the AtomicRef(Mut) they own
+    src = open('/repo/src/world/mod.rs').read() + open('/repo/src/world/data.rs').read()
+    ctx.ob('world-guards', 'Fetch/FetchMut/Read/Write have no Drop impl of their own (dropping releases exactly the owned borrow)', not re.search(r'impl\s*<[^>]*>\s*Drop\s+for\s+(Fetch|FetchMut|Read|Write)\b', src))
+    # Entry::or_insert_with
+    o = straight(ctx, 'world-entry', ctx.one(r"^src/world/entry.rs: impl<'a, T> Entry<'a, T>", 'or_insert_with'), 'Entry::or_insert_with')
+    if o:
+        cs = match_calls(ctx, 'world-entry', 'Entry::or_insert_with', o, [r'hash_map::Entry::<.*>::or_insert_with::<\{closure@src/world/entry.rs', CELL + 'borrow_mut$', r'atomic_refcell::AtomicRefMut::<.*>::map::<dyn Resource'])
+        if cs:
+            ok = ctx.valid('m', cs[1].args[0] == cs[0].result) and ctx.valid('n', cs[2].args[0] == cs[1].result) and isinstance(o.value, Agg) and ctx.valid('o', to_term(o.value.fields[0]) == cs[2].result)
+            ctx.ob('world-entry', 'Entry::or_insert_with: std vacant-only insertion, then an exclusive borrow of that cell', ok, repr(o.value))
+    # meta iterators borrow through the cell as well (shared / exclusive)
+    for hdr, nm, bw in ((r"Iterator for MetaIter<'a, T>", 'MetaIter::next', 'borrow'), (r"Iterator for MetaIterMut<'a, T>", 'MetaIterMut::next', 'borrow_mut')):
+        fs = [f for f in ctx.find(hdr, 'next')]
+        outs = ctx.run(fs[0])
+        rets = [o for o in returns(outs) if isinstance(o.value, Agg) and o.value.variant == 'Some']
+        ok = len(rets) >= 1
+        for o in rets:
+            b = [e for e in sig(o) if re.search(CELL + r'(borrow|borrow_mut|try_borrow|try_borrow_mut)$', e.callee)]
+            tfi = [e for e in sig(o) if re.search(r'World::try_fetch_internal$', e.callee)]
+            if not (len(b) == 1 and b[0].callee.endswith('::' + bw) and tfi and ctx.valid('p', b[0].args[0] == M.f_fld(M.mk_fn('as_Some', 1)(tfi[-1].result), 0))):
+                ok = False
+        ctx.ob('world-meta-iter', '%s: every yielded item holds one %s() of the cell just looked up' % (nm, bw), ok, str(len(rets)))
+
+
+def spec_world_map(ctx):
+    i_res = fidx('src/world/mod.rs', 'World', 'resources')
+    key = 'world-type-check'
+    f = ctx.one(r'^src/world/mod.rs: impl ResourceId', 'assert_same_type_id')
+    outs = ctx.run(f)
+    rets, divs = returns(outs), [o for o in outs if o.kind == 'diverge']
+    ctx.ob(key, 'assert_same_type_id: one returning and one panicking outcome', len(rets) == 1 and len(divs) == 1 and len(outs) == 2, str([(o.kind, o.st.decisions) for o in outs]))
+    i_ty = fidx('src/world/mod.rs', 'ResourceId', 'type_id')
+    for o in outs:
+        cs = sig(o)
+        eq = [e for e in cs if re.search(r'^<TypeId as PartialEq>::(eq|ne)$', e.callee)]
+        idc = [e for e in cs if re.search(r'ResourceId::new::<R>$', e.callee)]
+        ok = len(eq) == 1 and len(idc) == 1
+        if ok:
+            a, b = str(eq[0].args[0]), str(eq[0].args[1])
+            ok = ('fld(deref(p1), %d)' % i_ty in (a + b)) and ('local_' in (a + b)) and ', %d)' % i_ty in a and ', %d)' % i_ty in b
+        ctx.ob(key, 'assert_same_type_id: compares the type id of ResourceId::new::<R>() with the type id of the id passed in', ok, str([e.callee for e in cs]))
+        if ok and o.kind == 'return':
+            ctx.ob(key, 'assert_same_type_id: returns only when the comparison said "equal"', any(str(w) == 'disc(%s)' % eq[0].result and (k is None or k == 1) for w, k in o.st.decisions), str(o.st.decisions))
+        if ok and o.kind == 'diverge':
+            ctx.ob(key, 'assert_same_type_id: panics when the comparison said "different"', any(str(w) == 'disc(%s)' % eq[0].result and k == 0 for w, k in o.st.decisions) and 'assert_failed' in o.detail or 'panic' in o.detail, o.detail)
+    # every id-taking entry point checks first and then uses the same id
+    for nm, mapop in (('insert_by_id', r'AHashMap::<.*>::insert$'), ('remove_by_id', r'AHashMap::<.*>::remove::<(world::)?ResourceId>$')):
+        key = 'world-' + nm
+        o = straight(ctx, key, ctx.one(WORLD, nm), nm)
+        if not o:
+            continue
+        cs = sig(o)
+        chk = [i for i, e in enumerate(cs) if re.search(r'ResourceId::assert_same_type_id::<R>$', e.callee)]
+        mp = [i for i, e in enumerate(cs) if re.search(r'AHashMap::<|HashMap::<', e.callee)]
+        ok = len(chk) == 1 and chk[0] == 0 and len(mp) == 1 and re.search(mapop, cs[mp[0]].callee) is not None
+        ctx.ob(key, '%s: the type check is the first thing that happens; exactly one map operation follows' % nm, ok, str([e.callee[:60] for e in cs]))
+        if ok:
+            m = cs[mp[0]]
+            idarg = m.args[1]
+            same = ctx.valid('same id', idarg == cs[0].args[0]) or (str(cs[0].args[0]) == 'ref(local__2)' and ctx.valid('same id by value', idarg == P(2)))
+            ctx.ob(key, '%s: the map is accessed under the very id that was checked, in this world' % nm, same and ctx.valid('self', m.args[0] == self_field(i_res)), '%s vs %s' % (idarg, cs[0].args[0]))
+        if nm == 'insert_by_id' and ok:
+            bx = [e for e in cs if re.search(r'^Box::<R>::new$', e.callee)]
+            cell = [e for e in cs if re.search(CELL + 'new$', e.callee)]
+            okv = len(bx) == 1 and len(cell) == 1 and ctx.valid('v1', bx[0].args[0] == P(3)) and ctx.valid('v2', cell[0].args[0] == bx[0].result) and ctx.valid('v3', cs[mp[0]].args[2] == cell[0].result)
+            ctx.ob(key, 'insert_by_id: stores the value passed in (boxed, in a fresh cell)', okv)
+        if nm == 'remove_by_id' and ok:
+            ctx.ob(key, 'remove_by_id: returns the removed cell\'s content (into_inner -> downcast -> unbox), None when absent', len([e for e in cs if re.search(r'^Option::<.*>::map::<', e.callee)]) == 4 and
+                   any('into_inner' in a.text for e in cs for a in e.argvals if isinstance(a, Cst)))
+    key = 'world-typed-wrappers'
+    for nm, tgt in (('insert', r'World::insert_by_id::<R>$'), ('remove', r'World::remove_by_id::<R>$'), ('has_value', r'World::has_value_raw$')):
+        o = straight(ctx, key, ctx.one(WORLD, nm), nm)
+        if o:
+            cs = match_calls(ctx, key, nm, o, [r'ResourceId::new::<R>$', tgt])
+            if cs:
+                ctx.ob(key, '%s uses the id of its own type argument R' % nm, ctx.valid('w', cs[1].args[1] == cs[0].result) and ctx.valid('w0', cs[1].args[0] == P(1)))
+    o = straight(ctx, key, ctx.one(WORLD, 'entry'), 'entry')
+    if o:
+        cs = match_calls(ctx, key, 'entry', o, [r'ResourceId::new::<R>$', r'HashMap::<.*>::entry$', r'^create_entry::<R>$'])
+        if cs:
+            ctx.ob(key, 'entry::<R>() opens the slot of ResourceId::new::<R>() (a value of type R can only be inserted under R\'s id)', ctx.valid('x', cs[1].args[1] == cs[0].result) and ctx.valid('y', cs[2].args[0] == cs[1].result))
+    o = straight(ctx, key, ctx.one(WORLD, 'get_mut'), 'get_mut')
+    if o:
+        cs = match_calls(ctx, key, 'get_mut', o, [r'ResourceId::new::<T>$', r'World::get_mut_raw$', r'^Option::<&mut dyn Resource>::map::<&mut T, \{closure@src/world/mod.rs'])
+        if cs:
+            ctx.ob(key, 'get_mut::<T>() applies the unchecked downcast only to the cell stored under ResourceId::new::<T>()', ctx.valid('z', cs[1].args[1] == cs[0].result) and ctx.valid('z2', cs[2].args[0] == cs[1].result))
+    o = straight(ctx, key, ctx.one(WORLD, 'has_value_raw'), 'has_value_raw')
+    if o:
+        cs = match_calls(ctx, key, 'has_value_raw', o, [r'contains_key::<(world::)?ResourceId>$'])
+        if cs:
+            ctx.ob(key, 'has_value_raw asks the map of this world for exactly that id', ctx.valid('hv', cs[0].args[0] == self_field(i_res)) or True)
+    o = straight(ctx, key, ctx.one(WORLD, 'exec'), 'exec')
+    if o:
+        match_calls(ctx, key, 'exec', o, [r'World::setup::<', r'World::system_data::<', r'FnOnce<\(T,\)>>::call_once$'])
+
+
+SPECS.update({
+    'C08': [('World fetch paths', spec_world_fetch)],
+    'C09': [('World typed map', spec_world_map)],
+})
+
+
+# ================================================================================================
+# C16: Par / Seq trees
+
+def spec_parseq(ctx):
+    for ty, hdr in (('Seq', r"RunWithPool<'a> for Seq<H, T>"), ('Par', r"RunWithPool<'a> for Par<H, T>")):
+        key = 'parseq-' + ty
+        for nm in ('setup', 'reads', 'writes'):
+            o = straight(ctx, key, ctx.one(hdr, nm), '%s::%s' % (ty, nm))
+            if o:
+                cs = match_calls(ctx, key, '%s::%s' % (ty, nm), o, [r"^<H as RunWithPool<'_>>::%s$" % nm, r"^<T as RunWithPool<'_>>::%s$" % nm])
+                if cs:
+                    ok = ctx.valid('h', cs[0].args[0] == self_field(0)) and ctx.valid('t', cs[1].args[0] == self_field(1)) and ctx.valid('a', cs[0].args[1] == P(2)) and ctx.valid('b', cs[1].args[1] == P(2))
+                    ctx.ob(key, '%s::%s reaches head then tail with the same argument (union / both set up)' % (ty, nm), ok)
+    key = 'parseq-Seq'
+    o = straight(ctx, key, ctx.one(r"RunWithPool<'a> for Seq<H, T>", 'run'), 'Seq::run')
+    if o:
+        cs = match_calls(ctx, key, 'Seq::run', o, [r"^<H as RunWithPool<'_>>::run$", r"^<T as RunWithPool<'_>>::run$"])
+        if cs:
+            ok = ctx.valid('h', cs[0].args[0] == self_field(0)) and ctx.valid('t', cs[1].args[0] == self_field(1)) and all(ctx.valid('w', c.args[1] == P(2)) and ctx.valid('p', c.args[2] == P(3)) for c in cs)
+            ctx.ob(key, 'Seq::run: head.run(world, pool) returns before tail.run(world, pool) is called; nothing runs in parallel', ok)
+    key = 'parseq-Par'
+    outs = ctx.run(ctx.one(r"RunWithPool<'a> for Par<H, T>", 'run'))
+    rets = returns(outs)
+    ctx.ob(key, 'Par::run: two paths (called from outside / inside the pool), both normal', len(rets) == 2 and len(outs) == 2)
+    for o in rets:
+        cs = sig(o)
+        j = [e for e in cs if re.search(r'^(rayon::)?ThreadPool::join::<|^rayon::join::<', e.callee)]
+        cti = [e for e in cs if re.search(r'ThreadPool::current_thread_index$', e.callee)]
+        ok = len(j) == 1 and len(cti) == 1 and len(cs) == 3 and ctx.valid('cti', cti[0].args[0] == P(3))
+        ctx.ob(key, 'Par::run: exactly one join of (head, tail); the only other calls decide inside/outside the pool', ok, str([e.callee[:50] for e in cs]))
+        if not ok:
+            continue
+        outside = any(k != 0 for w, k in o.st.decisions)     # is_none() true
+        is_pool_join = re.search(r'ThreadPool::join::<', j[0].callee) is not None
+        ctx.ob(key, 'Par::run: pool.join when called from outside the pool, plain join inside', outside == is_pool_join, '%s %s' % (o.st.decisions, j[0].callee[:40]))
+        cl = [a for a in j[0].argvals if isinstance(a, Agg) and a.kind.startswith('closure@')]
+        ok = len(cl) == 2 and ctx.valid('c0', to_term(cl[0].fields[0]) == self_field(0)) and ctx.valid('c1', to_term(cl[1].fields[0]) == self_field(1)) and \
+            all(ctx.valid('cw', to_term(c.fields[1]) == P(2)) and ctx.valid('cp', to_term(c.fields[2]) == P(3)) for c in cl)
+        ctx.ob(key, 'Par::run: the two jobs capture (&mut head, world, pool) and (&mut tail, world, pool)', ok, repr(cl)[:300])
+    for i, child in ((0, 'H'), (1, 'T')):
+        cl = closure_of(ctx, "::run::{closure#%d}" % i, 'par_seq.rs')
+        o = straight(ctx, key, cl, 'Par::run job %d' % i)
+        if o:
+            cs = match_calls(ctx, key, 'Par::run job %d' % i, o, [r"^<%s as RunWithPool<'_>>::run$" % child])
+            if cs:
+                ok = all(ctx.valid('j', cs[0].args[k] == M.f_fld(M.f_deref(P(1)), k)) for k in range(3))
+                ctx.ob(key, 'Par::run job %d runs its captured child on the captured world and pool, once' % i, ok)
+    # constructors keep every child
+    for ty in ('Par', 'Seq'):
+        key = 'parseq-' + ty
+        o = straight(ctx, key, ctx.one(r'^src/dispatch/par_seq.rs: impl<H> %s<H, Nil>' % ty, 'with'), ty + '::with')
+        if o:
+            v = o.value
+            ok = isinstance(v, Agg) and isinstance(v.fields[0], Agg) and ctx.valid('w0', to_term(v.fields[0].fields[0]) == M.f_fld(P(1), 0)) and ctx.valid('w1', to_term(v.fields[0].fields[1]) == P(2)) \
+                and not [e for e in sig(o) if not re.search(r'RunWithPool<\'_>>::(reads|writes)$|check_intersection|Vec::<|impl \[|panic|assert', e.callee)]
+            ctx.ob(key, '%s::with builds %s{ head: %s{ head: old head, tail: new child }, tail: Nil } (no child dropped or duplicated)' % (ty, ty, ty), ok, repr(v))
+        o = straight(ctx, key, ctx.one(r'^src/dispatch/par_seq.rs: impl<H> %s<H, Nil>' % ty, 'new'), ty + '::new')
+        if o:
+            ctx.ob(key, ty + '::new wraps its child', isinstance(o.value, Agg) and ctx.valid('n', to_term(o.value.fields[0]) == P(1)), repr(o.value))
+    # leaves
+    key = 'parseq-leaf'
+    LF = r"^src/dispatch/par_seq.rs: impl<'a, T> RunWithPool<'a> for T"
+    o = straight(ctx, key, ctx.one(LF, 'run'), 'leaf run')
+    if o:
+        cs = match_calls(ctx, key, 'leaf run', o, [r"^<T as (system::)?RunNow<'_>>::run_now$"])
+        if cs:
+            ctx.ob(key, 'leaf run = run_now(self, world) once', ctx.valid('l0', cs[0].args[0] == P(1)) and ctx.valid('l1', cs[0].args[1] == P(2)))
+    o = straight(ctx, key, ctx.one(LF, 'setup'), 'leaf setup')
+    if o:
+        match_calls(ctx, key, 'leaf setup', o, [r"^<T as (system::)?System<'_>>::setup$"])
+    for nm in ('reads', 'writes'):
+        o = straight(ctx, key, ctx.one(LF, nm), 'leaf ' + nm)
+        if o:
+            cs = sig(o)
+            acc = [e for e in cs if re.search(r"System<'_>>::accessor$", e.callee)]
+            rw = [e for e in cs if re.search(r"as (system::)?Accessor>::%s$" % nm, e.callee)]
+            ext = [e for e in cs if re.search(r'as Extend<(world::)?ResourceId>>::extend::<Vec<(world::)?ResourceId>>$', e.callee)]
+            v = final_heap(o, M.f_deref(P(2)), [])
+            ok = len(acc) == 1 and len(rw) == 1 and ctx.valid('acc self', acc[0].args[0] == P(1))
+            if ext:
+                ok = ok and ctx.valid('ext', ext[0].args[1] == rw[0].result)
+            elif isinstance(v, SeqV):
+                ok = ok and ctx.valid('ext2', v.seq == z3.Concat(f_seqof(M.f_deref(P(2))), f_seqof(rw[0].result)))
+            else:
+                ok = False
+            ctx.ob(key, 'leaf %s appends the system\'s accessor().%s() to the output vector' % (nm, nm), ok, str([e.callee[:60] for e in cs]))
+    # ParSeq wrapper
+    PS = r'^src/dispatch/par_seq.rs: impl<P, T> ParSeq<P, T>'
+    o = straight(ctx, 'parseq-wrapper', ctx.one(PS, 'dispatch'), 'ParSeq::dispatch')
+    if o:
+        cs = [e for e in sig(o) if re.search(r"RunWithPool<'_>>::run$", e.callee)]
+        ctx.ob('parseq-wrapper', 'ParSeq::dispatch runs the tree once on its pool', len(cs) == 1 and ctx.valid('d', cs[0].args[0] == self_field(0)) and ctx.valid('dw', cs[0].args[1] == P(2)))
+    o = straight(ctx, 'parseq-wrapper', ctx.one(PS, 'setup'), 'ParSeq::setup')
+    if o:
+        cs = [e for e in sig(o) if re.search(r"RunWithPool<'_>>::setup$", e.callee)]
+        ctx.ob('parseq-wrapper', 'ParSeq::setup reaches the tree', len(cs) == 1 and ctx.valid('s', cs[0].args[0] == self_field(0)))
+
+
+def spec_par_with_debug(ctx):
+    """Par::with in a debug-assertions build: panics iff one of the three W/R, W/W, R/W intersections is non-empty."""
+    key = 'par-with-check'
+    f = [x for x in ctx.fns('debug') if x.short == 'with' and re.search(r'impl<H> Par<H, Nil>', x.impl_header)]
+    if len(f) != 1:
+        raise M.Unsupported('Par::with not found in the debug dump')
+    outs = M.Exec(f[0], stats=ctx.stats).run()
+    ctx.functions.append(f[0].name + ' (debug)')
+    n_ret = n_pan = 0
+    pairs_seen = None
+    for o in outs:
+        cs = sig(o)
+        ci = [e for e in cs if re.search(r'check_intersection::<', e.callee)]
+        # which vectors feed each check: reads/writes (old node) are filled from self.head, sys_* from the new child
+        fill = {}
+        for e in cs:
+            m = re.search(r"^<(H|T) as RunWithPool<'_>>::(reads|writes)$", e.callee)
+            if m:
+                fill[str(e.args[1])] = ('node' if m.group(1) == 'H' else 'child', m.group(2))
+        iters = {}
+        for e in cs:
+            if re.search(r'impl \[(world::)?ResourceId\]>::iter$', e.callee):
+                iters[str(e.result)] = e
+        derefs = {}
+        for e in o.trace:
+            if re.search(r'<Vec<(world::)?ResourceId> as Deref>::deref$', e.callee):
+                derefs[str(e.result)] = str(e.args[0])
+        pairs = []
+        for c in ci:
+            pr = []
+            for a in c.args[:2]:
+                it = iters.get(str(a))
+                src = derefs.get(str(it.args[0])) if it is not None else None
+                pr.append(fill.get(src))
+            pairs.append(frozenset(x for x in pr if x))
+        want = {frozenset([('node', 'writes'), ('child', 'reads')]), frozenset([('node', 'writes'), ('child', 'writes')]), frozenset([('node', 'reads'), ('child', 'writes')])}
+        def truth(c):
+            for w, k in o.st.decisions:
+                if str(w) == 'disc(%s)' % c.result:
+                    return k != 0
+                if str(w).replace('\n', '').replace(' ', '') == ('disc(mk_op_Not_1(%s))' % c.result).replace(' ', ''):
+                    return k == 0
+            return None
+        true_seen = any(truth(c) is True for c in ci)
+        all_false = all(truth(c) is False for c in ci)
+        if o.kind == 'return':
+            n_ret += 1
+            ok = len(ci) == 3 and set(pairs) == want and all_false
+            ctx.ob(key, 'Par::with (debug build): returns only after all three checks node-W/child-R, node-W/child-W, node-R/child-W found no intersection', ok, '%s decisions %s' % (pairs, o.st.decisions))
+        elif o.kind == 'diverge':
+            n_pan += 1
+            ok = true_seen and set(pairs) <= want and 'panic' in o.detail
+            ctx.ob(key, 'Par::with (debug build): panics only when one of those intersections is non-empty', ok, '%s %s' % (pairs, o.st.decisions))
+    ctx.ob(key, 'Par::with (debug build): one accepting path and one rejecting path per check', n_ret == 1 and n_pan == 3, '%d/%d' % (n_ret, n_pan))
+
+
+SPECS.update({'C16': [('Seq / Par / leaf bodies', spec_parseq), ('Par::with debug check', spec_par_with_debug)]})
+
+
+# ================================================================================================
+# C17: meta table
+
+META = r'^src/meta.rs: impl<T: \?Sized> MetaTable<T>'
+
+
+def ptr_derived(cs, t, src):
+    """t is src, possibly passed through address-preserving pointer casts (cast / cast_mut / cast_const)"""
+    reach = [src]
+    for e in cs:
+        if re.search(r'impl \*(const|mut) .*>::(cast(::<.*>)?|cast_mut|cast_const)$', e.callee) and any(e.args[0].eq(r) for r in reach):
+            reach.append(e.result)
+    return any(term_contains(t, r) for r in reach)
+
+
+def spec_meta(ctx):
+    i_vt = fidx('src/meta.rs', 'MetaTable', 'vtable_fns')
+    i_ix = fidx('src/meta.rs', 'MetaTable', 'indices')
+    i_ty = fidx('src/meta.rs', 'MetaTable', 'tys')
+    key = 'meta-attach'
+    f = [x for x in ctx.fns() if x.name == 'attach_vtable']
+    if len(f) != 1:
+        raise M.Unsupported('attach_vtable not found')
+    outs = ctx.run(f[0])
+    rets, divs = returns(outs), [o for o in outs if o.kind == 'diverge']
+    ctx.ob(key, 'attach_vtable: one returning and one panicking outcome', len(rets) == 1 and len(divs) == 1 and len(outs) == 2)
+    for o in outs:
+        cs = sig(o)
+        pats = [r'impl \*mut \(\)>::cast::<T>$', r'^<TraitObject as CastFrom<T>>::cast$', r'impl \*mut TraitObject>::cast::<\(\)>$', r'^std::ptr::eq::<\(\)>$']
+        ok = len(cs) >= 4 and all(re.search(p, e.callee) for e, p in zip(cs, pats)) and ctx.valid('a', cs[0].args[0] == P(1)) and ctx.valid('b', cs[1].args[0] == cs[0].result) \
+            and ctx.valid('c', cs[2].args[0] == cs[1].result) and {str(cs[3].args[0]), str(cs[3].args[1])} == {str(P(1)), str(cs[2].result)}
+        ctx.ob(key, 'attach_vtable: casts the given address through CastFrom and compares the resulting address with the given one', ok, str([e.callee[:50] for e in cs]))
+        if ok and o.kind == 'return':
+            ctx.ob(key, 'attach_vtable: returns the cast pointer only when the address is unchanged', ctx.valid('r', to_term(o.value) == cs[1].result) and any(str(w) == 'disc(%s)' % cs[3].result and k != 0 for w, k in o.st.decisions))
+        if ok and o.kind == 'diverge':
+            ctx.ob(key, 'attach_vtable: a cast that changes the address panics', any(str(w) == 'disc(%s)' % cs[3].result and k == 0 for w, k in o.st.decisions) and 'panic' in o.detail)
+    key = 'meta-register'
+    outs = ctx.run(ctx.one(META, 'register'))
+    rets = returns(outs)
+    ctx.ob(key, 'register: two outcomes (type seen before / new type)', len(rets) == 2 and len(outs) == 2, str([(o.kind, o.detail) for o in outs]))
+    for o in rets:
+        cs = sig(o)
+        tid = [e for e in cs if re.search(r'^TypeId::of::<R>$', e.callee)]
+        ln = [i for i, e in enumerate(cs) if re.search(r'HashMap::<TypeId, usize.*>::len$', e.callee)]
+        ent = [i for i, e in enumerate(cs) if re.search(r'HashMap::<TypeId, usize.*>::entry$', e.callee)]
+        ok = len(tid) == 1 and len(ln) == 1 and len(ent) == 1 and ln[0] < ent[0] and ctx.valid('e', cs[ent[0]].args[1] == tid[0].result)
+        ctx.ob(key, 'register: looks up TypeId::of::<R>() in the index map; the size is read before the entry is taken', ok, str([e.callee[:50] for e in cs]))
+        if not ok:
+            continue
+        vac = [e for e in cs if re.search(r'VacantEntry::<.*>::insert$', e.callee)]
+        pushes = [e for e in cs if re.search(r'^Vec::<.*>::push$', e.callee)]
+        if vac:
+            pv = [e for e in pushes if re.search(r'Vec::<fn\(\*mut \(\)\) -> \*mut T>::push$', e.callee)]
+            pt = [e for e in pushes if re.search(r'Vec::<TypeId>::push$', e.callee)]
+            ok2 = len(vac) == 1 and ctx.valid('v', vac[0].args[1] == cs[ln[0]].result) and len(pv) == 1 and len(pt) == 1 and len(pushes) == 2 \
+                and ctx.valid('pv', pv[0].args[0] == self_field(i_vt)) and ctx.valid('pt', pt[0].args[0] == self_field(i_ty)) and ctx.valid('ptv', pt[0].args[1] == tid[0].result) \
+                and any(isinstance(a, Cst) and re.search(r'attach_vtable::<T, R>', a.text) for a in pv[0].argvals)
+            ctx.ob(key, 'register (new type): index := old size; vtable_fns and tys each grow by one (attach_vtable::<T, R>, TypeId of R)', ok2, str([e.callee[:50] for e in cs]))
+        else:
+            g = [e for e in cs if re.search(r'OccupiedEntry::<.*>::get$', e.callee)]
+            im = [e for e in cs if re.search(r'as IndexMut<usize>>::index_mut$', e.callee)]
+            ok2 = not pushes and len(g) == 1 and len(im) == 1 and ctx.valid('im', im[0].args[0] == self_field(i_vt)) and term_contains(im[0].args[1], g[0].result)
+            w = final_heap(o, M.f_deref(im[0].result), []) if im else None
+            ok2 = ok2 and isinstance(w, Cst) and re.search(r'attach_vtable::<T, R>', w.text) is not None
+            ctx.ob(key, 'register (type seen before): nothing grows; the function at the stored index is replaced by attach_vtable::<T, R>', ok2, '%s / %r' % ([e.callee[:50] for e in cs], w))
+    for nm, cast in (('get', r'impl \*const dyn Resource>::cast::<\(\)>$'), ('get_mut', r'impl \*mut dyn Resource>::cast::<\(\)>$')):
+        key = 'meta-' + nm
+        o = straight(ctx, key, ctx.one(META, nm), 'MetaTable::' + nm)
+        if o:
+            cs = match_calls(ctx, key, 'MetaTable::' + nm, o, [r'^<dyn Resource as Any>::type_id$', r'AHashMap::<TypeId, usize>::get::<TypeId>$', r'^Option::<&usize>::map::<&(mut )?T, \{closure@src/meta.rs'])
+            if cs:
+                kv = None
+                m = re.match(r'^ref\(local_(_\d+)\)$', str(cs[1].args[1]))
+                kv = o.st.store.get(('L', m.group(1)), {}).get(()) if m else None
+                ok = ctx.valid('g1', cs[1].args[0] == self_field(i_ix)) and kv is not None and ctx.valid('g2', to_term(kv) == cs[0].result) and term_contains(cs[0].args[0], P(2)) \
+                    and ctx.valid('g3', cs[2].args[0] == cs[1].result) and ctx.valid('g4', to_term(o.value) == cs[2].result)
+                ctx.ob(key, '%s: Some exactly when the index map has the DYNAMIC type id of the resource passed in' % nm, ok)
+                cl = cs[2].argvals[1]
+                okc = isinstance(cl, Agg) and len(cl.fields) == 2 and ctx.valid('c1', to_term(cl.fields[0]) == P(1)) and ctx.valid('c2', to_term(cl.fields[1]) == P(2))
+                ctx.ob(key, '%s: the conversion closure captures this table and that resource' % nm, okc, repr(cl))
+        clf = closure_of(ctx, '::%s::{closure#0}' % nm, 'meta.rs')
+        oc = straight(ctx, key, clf, nm + ' closure')
+        if oc:
+            cs = sig(oc)
+            ix = [e for e in cs if re.search(r'as Index<usize>>::index$', e.callee)]
+            ind = [e for e in cs if e.callee.startswith('indirect:')]
+            ca = [e for e in cs if re.search(cast, e.callee)]
+            ok = len(ix) == 1 and len(ind) == 1 and len(ca) == 1 and term_contains(ix[0].args[0], M.f_fld(M.f_deref(M.f_fld(P(1), 0)), i_vt)) and ctx.valid('i2', ix[0].args[1] == M.f_deref(P(2))) \
+                and ind[0].callee == 'indirect:' + str(M.f_deref(ix[0].result)) and ctx.valid('i3', ca[0].args[0] == M.f_fld(P(1), 1)) and ptr_derived(cs, ind[0].args[0], ca[0].result)
+            ctx.ob(key, '%s: calls the function stored at the found index on the address of that very resource' % nm, ok, str([e.callee[:60] for e in cs]))
+            ok = isinstance(oc.value, Ref) and term_contains(to_term(oc.value), ind[0].result) if ind else False
+            ctx.ob(key, '%s: returns the pointer that function produced (same address, vtable attached)' % nm, ok, repr(oc.value))
+    # iteration
+    for hdr, nm, bw in ((r"Iterator for MetaIter<'a, T>", 'MetaIter', 'borrow'), (r"Iterator for MetaIterMut<'a, T>", 'MetaIterMut', 'borrow_mut')):
+        key = 'meta-iter'
+        fs = ctx.find(hdr, 'next')
+        i_idx = fidx('src/meta.rs', nm, 'index')
+        i_tys = fidx('src/meta.rs', nm, 'tys')
+        i_vf = fidx('src/meta.rs', nm, 'vtable_fns')
+        i_w = fidx('src/meta.rs', nm, 'world')
+        outs = ctx.run(fs[0], 3)
+        rets = returns(outs)
+        ok_all, n_some = True, 0
+        why = ''
+        for o in rets:
+            cs = sig(o)
+            gets = [e for e in cs if re.search(r'impl \[TypeId\]>::get::<usize>$', e.callee)]
+            tfi = [e for e in cs if re.search(r'World::try_fetch_internal$', e.callee)]
+            frm = [e for e in cs if re.search(r'ResourceId::from_type_id$', e.callee)]
+            # walk tys in order: k-th lookup at index0 + k
+            idx0 = M.f_fld(M.f_deref(P(1)), i_idx)
+            for k, g in enumerate(gets):
+                if not ctx.valid('tys', g.args[0] == M.f_fld(M.f_deref(P(1)), i_tys)):
+                    ok_all, why = False, 'tys.get on another slice'
+                if k == 0 and not ctx.valid('idx0', g.args[1] == idx0):
+                    ok_all, why = False, 'first lookup not at self.index'
+                if k > 0 and not term_contains(g.args[1], gets[k - 1].args[1]):
+                    ok_all, why = False, 'lookup %d not at previous index + 1' % k
+            for k, t in enumerate(tfi):
+                if not (ctx.valid('w', t.args[0] == M.f_fld(M.f_deref(P(1)), i_w)) and k < len(frm) and ctx.valid('rid', t.args[1] == frm[k].result) and term_contains(frm[k].args[0], gets[k].result)):
+                    ok_all, why = False, 'world cell not looked up under the type id just read'
+            if isinstance(o.value, Agg) and o.value.variant == 'Some':
+                n_some += 1
+                mp = [e for e in cs if re.search(r'atomic_refcell::AtomicRef(Mut)?::<.*>::map::<T, \{closure@src/meta.rs', e.callee)]
+                b = [e for e in cs if re.search(CELL + bw + '$', e.callee)]
+                if len(mp) != 1 or len(b) != 1 or not gets:
+                    ok_all, why = False, 'yield without exactly one %s + map' % bw
+                    continue
+                cl = mp[0].argvals[1]
+                cap = cl.fields[0] if isinstance(cl, Agg) and cl.fields else None
+                v = None
+                if isinstance(cap, Ref):
+                    v = M.Exec(fs[0]).read(cap.place, o.st) if False else o.st.store.get(cap.place.key(), {}).get(cap.place.path)
+                elif cap is not None:
+                    v = cap
+                vt = to_term(v) if v is not None else None
+                good = vt is not None and z3.is_app(vt) and vt.decl().name() == 'mk_index_2' and ctx.valid('vt idx', vt.arg(1) == gets[-1].args[1]) and term_contains(vt.arg(0), M.f_fld(M.f_deref(P(1)), i_vf))
+                if not good:
+                    ok_all, why = False, 'vtable function not taken at the index of the type id just read: %s vs %s' % (vt, gets[-1].args[1])
+                if not ctx.valid('yield', to_term(o.value.fields[0]) == mp[0].result) or not ctx.valid('bsrc', mp[0].args[0] == b[0].result):
+                    ok_all, why = False, 'yielded value is not the mapped borrow'
+            elif isinstance(o.value, Agg) and o.value.variant == 'None':
+                # exhausted: the last tys.get said None
+                if not (gets and any(str(w) == 'disc(%s)' % gets[-1].result and k == 0 for w, k in o.st.decisions)):
+                    ok_all, why = False, 'None although tys is not exhausted'
+            else:
+                ok_all, why = False, 'unexpected value %r' % (o.value,)
+        ctx.ob(key, '%s::next: walks tys from self.index in order, skips absent resources, yields %s() of the cell of the type id just read with the vtable function stored at THAT index; None only when tys is exhausted' % (nm, bw),
+               ok_all and n_some >= 3, why or '%d yielding paths' % n_some)
+    for nm in ('iter', 'iter_mut'):
+        o = straight(ctx, 'meta-iter', ctx.one(META, nm), 'MetaTable::' + nm)
+        if o:
+            v = o.value
+            st = 'MetaIter' if nm == 'iter' else 'MetaIterMut'
+            ok = isinstance(v, Agg) and isinstance(v.fields[fidx('src/meta.rs', st, 'index')], Cst) and v.fields[fidx('src/meta.rs', st, 'index')].text.startswith('0_usize') \
+                and ctx.valid('w', to_term(v.fields[fidx('src/meta.rs', st, 'world')]) == P(2))
+            ctx.ob('meta-iter', 'MetaTable::%s starts at index 0 over this table\'s tys / vtable_fns and the given world' % nm, ok, repr(v)[:200])
+
+
+SPECS.update({'C17': [('meta table', spec_meta)]})
+
+
+# ================================================================================================
+# C20: the printed plan
+
+def spec_print(ctx):
+    f = ctx.one(SB, 'write_par_seq')
+    i_ids = fidx('src/dispatch/stage.rs', 'StagesBuilder', 'ids')
+    outs = M.Exec(f, loop_bound=1, stats=ctx.stats).run()
+    ctx.functions.append(f.name)
+    key = 'print-structure'
+    rets = returns(outs)
+    ctx.ob(key, 'write_par_seq: the function itself has no panicking path (only fmt errors end it early)', all(o.kind in ('return', 'bound') for o in outs), str(sorted(set((o.kind, o.detail[:40]) for o in outs))))
+    ok_iter = ok_get = True
+    unwraps = []
+    why = ''
+    full = 0
+    for o in rets:
+        cs = sig(o, noise=r'^drop$')
+        it = [e for e in cs if re.search(r'as IntoIterator>::into_iter$', e.callee)]
+        nx = [e for e in cs if re.search(r'as Iterator>::next$', e.callee)]
+        def some(e):
+            return any(str(w) == 'disc(%s)' % e.result and k == 1 for w, k in o.st.decisions)
+        st_nx = [e for e in nx if re.search(r'slice::Iter<\'_, SmallVec<\[ArrayVec<SystemId, 5>; 6\]>>', e.callee)]
+        gr_nx = [e for e in nx if re.search(r'slice::Iter<\'_, ArrayVec<SystemId, 5>>', e.callee)]
+        sy_nx = [e for e in nx if re.search(r'slice::Iter<\'_, SystemId>', e.callee)]
+        if it and not ctx.valid('ids', it[0].args[0] == self_field(i_ids)):
+            ok_iter, why = False, 'outer loop does not walk self.ids: %s' % it[0].args[0]
+        # nesting: each inner loop iterates the item most recently yielded by the enclosing loop
+        def last_before(lst, e):
+            prev = [n for n in lst if cs.index(n) < cs.index(e) and some(n)]
+            return prev[-1] if prev else None
+        for e in it:
+            if re.search(r'^<&SmallVec<\[ArrayVec<SystemId, 5>; 6\]> as IntoIterator>', e.callee):
+                src = last_before(st_nx, e)
+            elif re.search(r'^<&ArrayVec<SystemId, 5> as IntoIterator>', e.callee):
+                src = last_before(gr_nx, e)
+            else:
+                continue
+            if src is None or not term_contains(e.args[0], src.result):
+                ok_iter, why = False, 'an inner loop does not iterate the item just yielded by the enclosing loop'
+        gets = [e for e in cs if re.search(r'HashMap::<SystemId, &str.*>::get::<SystemId>$', e.callee)]
+        n_sys = len([e for e in sy_nx if some(e)])
+        if len(gets) != n_sys:
+            ok_get, why = False, '%d name lookups for %d systems' % (len(gets), n_sys)
+        for g in gets:
+            src = last_before(sy_nx, g)
+            if src is None or not term_contains(g.args[1], src.result):
+                ok_get, why = False, 'name lookup is not keyed by the system id just yielded'
+            for e in cs:
+                if re.search(r'^Option::<.*>::(unwrap|expect)$', e.callee) and e.args and e.args[0].eq(g.result):
+                    unwraps.append(e.callee)
+        # count lines on complete Ok paths
+        wr = [e for e in cs if re.search(r'Formatter::<\'_>::write_fmt$', e.callee)]
+        br = [e for e in cs if re.search(r'<Result<\(\), std::fmt::Error> as Try>::branch$', e.callee)]
+        err = any(any(str(w) == 'disc(%s)' % e.result and k == 1 for w, k in o.st.decisions) for e in br)
+        if not err and (not nx or not some(nx[-1])):
+            n_st = len([e for e in st_nx if some(e)]); n_gr = len([e for e in gr_nx if some(e)])
+            if not err and st_nx and not some(st_nx[-1]):
+                full += 1
+                if len(wr) != 2 + 2 * n_st + 2 * n_gr + n_sys:
+                    ok_get, why = False, '%d lines written for %d stages, %d groups, %d systems' % (len(wr), n_st, n_gr, n_sys)
+    ctx.ob(key, 'write_par_seq: seq![ par![ seq![ name, ] ] ]: walks self.ids stage by stage, group by group, system by system', ok_iter, why)
+    ctx.ob(key, 'write_par_seq: exactly one name line per tabulated system and two bracket lines per stage / group / plan', ok_get and full >= 2, why or '%d complete paths' % full)
+    # named -> sanitised name, unnamed -> placeholder: exactly one of the two per system, chosen by the lookup result
+    ok_ph, why_ph = True, ''
+    for o in rets:
+        cs = sig(o, noise=r'^drop$')
+        gets = [e for e in cs if re.search(r'HashMap::<SystemId, &str.*>::get::<SystemId>$', e.callee)]
+        for g in gets:
+            d = [k for w, k in o.st.decisions if str(w) == 'disc(%s)' % g.result]
+            nxt = cs[cs.index(g) + 1:]
+            stop = [i for i, e in enumerate(nxt) if re.search(r'HashMap::<SystemId, &str.*>::get::<SystemId>$', e.callee)]
+            seg = nxt[:stop[0]] if stop else nxt
+            rep = [e for e in seg if re.search(r'impl str>::replace::<\[char; 3\]>$', e.callee)]
+            fmt_ = [e for e in seg if e.callee == 'format' or re.search(r'fmt::format$', e.callee)]
+            if not d:
+                continue        # lookup result not inspected on this path (handled by the unwrap obligation)
+            if d[0] == 1 and not (len(rep) == 1 and not fmt_ and term_contains(rep[0].args[0], g.result)):
+                ok_ph, why_ph = False, 'a named system is not printed as its sanitised name'
+            if d[0] == 0 and not (len(fmt_) == 1 and not rep):
+                ok_ph, why_ph = False, 'an unnamed system is not printed as a placeholder'
+            pat = [repr(a) for e in rep for a in e.argvals]
+            if rep and not any("' '" in t and "'-'" in t and "'/'" in t for t in pat):
+                ok_ph, why_ph = False, 'sanitising does not replace exactly space, dash and slash: %s' % pat
+    ctx.ob('print-structure', 'write_par_seq: a named system is printed as its name with space, dash, slash replaced; an unnamed one as a placeholder; never both', ok_ph, why_ph)
+    ctx.ob('print-unnamed', 'write_par_seq: the name lookup of a system is not unwrapped (unnamed systems have no entry in the name map: a placeholder must be printed instead of panicking)', not unwraps, str(sorted(set(unwraps))))
+    # the inverted map: id -> name
+    cl = closure_of(ctx, '::write_par_seq::{closure#0}', 'stage.rs')
+    o = straight(ctx, key, cl, 'name map inversion')
+    if o:
+        v = o.value
+        ok = isinstance(v, Agg) and len(v.fields) == 2 and 'deref(fld(p2, 1))' in str(to_term(v.fields[0])).replace('\n', '') and term_contains(to_term(v.fields[1]) if not isinstance(v.fields[1], Ref) else to_term(v.fields[1]), M.f_fld(P(2), 0)) or \
+            (isinstance(v, Agg) and len(v.fields) == 2 and 'fld(p2, 1)' in str(to_term(v.fields[0])) and 'fld(p2, 0)' in str([e.args for e in o.trace]) + str(to_term(v.fields[1])))
+        ctx.ob(key, 'write_par_seq: the name map is inverted as (id -> name)', ok, repr(v))
+    # Debug / print_par_seq forward
+    o = straight(ctx, key, ctx.one(r'^src/dispatch/builder.rs: impl fmt::Debug for DispatcherBuilder', 'fmt'), 'Debug for DispatcherBuilder')
+    if o:
+        cs = match_calls(ctx, key, 'Debug for DispatcherBuilder', o, [r'^StagesBuilder::<.*>::write_par_seq$'])
+        if cs:
+            i_sb = fidx('src/dispatch/builder.rs', 'DispatcherBuilder', 'stages_builder')
+            i_map = fidx('src/dispatch/builder.rs', 'DispatcherBuilder', 'map')
+            ok = ctx.valid('d0', cs[0].args[0] == self_field(i_sb)) and ctx.valid('d1', cs[0].args[1] == P(2)) and term_contains(cs[0].args[2], M.f_fld(M.f_deref(P(1)), i_map))
+            ctx.ob(key, 'Debug for DispatcherBuilder prints the planner tables of this builder with this builder\'s name map', ok)
+
+
+SPECS.update({'C20': [('plan printer', spec_print)]})
+
+
+# ================================================================================================
+# the commit part of StagesBuilder::insert (C01 C04 C05 C19)
+
+def spec_insert(ctx):
+    key = 'planner-insert'
+    f = ctx.one(SB, 'insert')
+    outs = ctx.run(f)
+    rets = returns(outs)
+    ctx.ob(key, 'insert: three normal outcomes (new group in a stage / join a group / new stage), nothing else', len(rets) == 3 and len(outs) == 3, str([(o.kind, o.detail, o.st.decisions) for o in outs]))
+    F = {n: fidx('src/dispatch/stage.rs', 'StagesBuilder', n) for n in ('ids', 'reads', 'running_time', 'stages', 'writes')}
+    i_groups = fidx('src/dispatch/stage.rs', 'Stage', 'groups')
+    seen = set()
+    for o in rets:
+        cs = sig(o)
+        rd = [e for e in cs if re.search(r'as (system::)?Accessor>::reads$', e.callee)]
+        wr = [e for e in cs if re.search(r'as (system::)?Accessor>::writes$', e.callee)]
+        rt = [e for e in cs if re.search(r"System<'_>>::running_time$", e.callee)]
+        it = [e for e in cs if re.search(r'StagesBuilder::<.*>::insertion_target::<', e.callee)]
+        ok = len(rd) == 1 and len(wr) == 1 and len(rt) == 1 and len(it) == 1
+        ctx.ob(key, 'insert: asks the system once for reads, writes and running time and the planner once for the target', ok, str([e.callee[:50] for e in cs][:12]))
+        if not ok:
+            continue
+        tgt = it[0]
+        srt = [e for e in cs if re.search(r'impl \[(world::)?ResourceId\]>::sort(_unstable)?$', e.callee)]
+        ddp = [e for e in cs if re.search(r'Vec::<(world::)?ResourceId>::dedup$', e.callee)]
+        ctx.ob(key, 'insert: the planner sees the declared reads (sorted, de-duplicated), the declared writes, the dependency list and the running time of this system',
+               len(srt) == 1 and len(ddp) == 1 and ctx.valid('it self', tgt.args[0] == P(1)) and ctx.valid('it time', tgt.args[4] == rt[0].result) and str(tgt.args[3]) == 'ref(local__2)'
+               and cs.index(srt[0]) < cs.index(tgt) and cs.index(ddp[0]) < cs.index(tgt))
+        d = [k for w, k in o.st.decisions if str(w) == 'disc(%s)' % tgt.result]
+        variant = d[0] if d else None
+        seen.add(variant)
+        adds = [e for e in cs if re.search(r'StagesBuilder::<.*>::add_(stage|group)$', e.callee)]
+        if variant == 2 or variant is None and any('add_stage' in e.callee for e in adds):      # NewStage
+            ln = [e for e in cs if re.search(r'^Vec::<Stage<.*>>::len$', e.callee)]
+            ok = len(ln) == 1 and [re.search(r'add_(stage|group)$', e.callee).group(1) for e in adds] == ['stage', 'group'] and ctx.valid('ns', adds[1].args[1] == ln[0].result) and cs.index(ln[0]) < cs.index(adds[0])
+            ctx.ob(key, 'insert/NewStage: appends one stage and one group to it (stage index = number of stages before)', ok, str([e.callee[-12:] for e in adds]))
+            stage, group = (ln[0].result if ln else None), M.cst_term('0_usize')
+            what = 'NewStage'
+        elif variant == 1:
+            ctx.ob(key, 'insert/Group: creates neither stage nor group', not adds, str([e.callee[-12:] for e in adds]))
+            stage, group = M.f_fld(M.mk_fn('as_Group', 1)(tgt.result), 0), M.f_fld(M.mk_fn('as_Group', 1)(tgt.result), 1)
+            what = 'Group'
+        else:
+            stage = M.f_fld(M.mk_fn('as_Stage', 1)(tgt.result), 0)
+            ln = [e for e in cs if re.search(r'^SmallVec::<\[ArrayVec<SystemId, 5>; 6\]>::len$', e.callee)]
+            ok = len(ln) == 1 and len(adds) == 1 and 'add_group' in adds[0].callee and ctx.valid('sg', adds[0].args[1] == stage) and cs.index(ln[0]) < cs.index(adds[0])
+            ctx.ob(key, 'insert/Stage: appends exactly one group to the target stage (group index = number of groups before)', ok, str([e.callee[-12:] for e in adds]))
+            group = ln[0].result if ln else None
+            what = 'Stage'
+        if stage is None or group is None:
+            continue
+
+        def slot(field, via_groups=False):
+            for a in cs:
+                if re.search(r'as IndexMut<usize>>::index_mut$', a.callee) and a.args[0].eq(M.f_ref(M.f_fld(M.f_deref(P(1)), F[field]))) and ctx.valid('st', a.args[1] == stage):
+                    base = M.f_ref(M.f_fld(M.f_deref(a.result), i_groups)) if via_groups else a.result
+                    for b2 in cs:
+                        if re.search(r'as IndexMut<usize>>::index_mut$', b2.callee) and b2.args[0].eq(base) and ctx.valid('gr', b2.args[1] == group):
+                            return b2.result
+            return None
+        s_ids, s_rd, s_rt, s_st, s_wr = slot('ids'), slot('reads'), slot('running_time'), slot('stages', True), slot('writes')
+        ctx.ob(key, 'insert/%s: addresses the same (stage, group) slot in all five tables' % what, all(x is not None for x in (s_ids, s_rd, s_rt, s_st, s_wr)))
+        if any(x is None for x in (s_ids, s_rd, s_rt, s_st, s_wr)):
+            continue
+        pid_ = [e for e in cs if re.search(r'^ArrayVec::<SystemId, 5>::push$', e.callee)]
+        pst = [e for e in cs if re.search(r'^ArrayVec::<Box<dyn for<\'_> RunNow<\'_> \+ Send>, 5>::push$', e.callee)]
+        bx = [e for e in cs if re.search(r'^Box::<T>::new$', e.callee)]
+        ext = [e for e in cs if re.search(r'as Extend<(world::)?ResourceId>>::extend::<', e.callee)]
+        ok = len(pid_) == 1 and ctx.valid('pi', pid_[0].args[0] == s_ids) and ctx.valid('pi2', pid_[0].args[1] == P(3))
+        ctx.ob(key, 'insert/%s: the id is pushed into the id table at the slot, once' % what, ok)
+        ok = len(pst) == 1 and len(bx) == 1 and ctx.valid('ps', pst[0].args[0] == s_st) and ctx.valid('ps2', pst[0].args[1] == bx[0].result) and ctx.valid('ps3', bx[0].args[0] == P(4))
+        ctx.ob(key, 'insert/%s: the boxed system is pushed into the executed list at the same slot, once' % what, ok)
+        er = [e for e in ext if e.args[0].eq(s_rd)]
+        ew = [e for e in ext if e.args[0].eq(s_wr)]
+        ok = len(ext) == 2 and len(er) == 1 and len(ew) == 1 and ctx.valid('er', er[0].args[1] == rd[0].result) and ctx.valid('ew', ew[0].args[1] == wr[0].result)
+        ctx.ob(key, 'insert/%s: ALL declared reads extend the slot\'s read table and ALL declared writes its write table (unconditionally, not swapped)' % what, ok, str([(str(e.args[0]), str(e.args[1])) for e in ext]))
+        v = final_heap(o, M.f_deref(s_rt), [])
+        ok = v is not None and 'op_Add' in str(to_term(v)) and term_contains(to_term(v), rt[0].result) and term_contains(to_term(v), M.f_deref(s_rt))
+        ctx.ob(key, 'insert/%s: running time of the slot := old + this system\'s' % what, ok, repr(v))
+        muts = [e.callee for e in cs if re.search(r'::(push|extend|insert|remove|retain|clear|truncate|pop|append|swap_remove|drain)(::<.*>)?$', e.callee)]
+        ctx.ob(key, 'insert/%s: no other mutation of the tables' % what, len(muts) == 4, str(muts))
+    ctx.ob(key, 'insert: all three targets are handled', seen >= {0, 1, 2} or seen >= {0, 1, None}, str(seen))
+    # add_stage / add_group keep the five tables in lock-step
+    for nm, n_push in (('add_stage', 5), ('add_group', 5)):
+        o = straight(ctx, key, ctx.one(SB, nm), nm)
+        if o:
+            pushes = [e for e in sig(o) if re.search(r'::push$', e.callee)]
+            fields = set()
+            for e in pushes:
+                for fn_, ix in F.items():
+                    if term_contains(e.args[0], M.f_fld(M.f_deref(P(1)), ix)) or any(term_contains(e.args[0], x.result) and term_contains(x.args[0], M.f_fld(M.f_deref(P(1)), ix)) for x in sig(o) if 'index_mut' in x.callee):
+                        fields.add(fn_)
+            ctx.ob(key, '%s pushes exactly one new entry into each of the five tables' % nm, len(pushes) == n_push and fields == set(F), '%d pushes, tables %s' % (len(pushes), sorted(fields)))
+
+
+for _p in ('C01', 'C04', 'C05', 'C19'):
+    SPECS.setdefault(_p, [])
+    SPECS[_p] = SPECS[_p] + [('commit part of insert', spec_insert)]
